@@ -333,7 +333,7 @@ func genSeqCache(prop string, seed uint64, tier string, kinds []string) *SeqScen
 
 // genSeqMap builds a sequential Map/MapOf scenario.
 func genSeqMap(prop string, seed uint64, tier string, kinds []string) *SeqScenario {
-	g := &genCtx{r: simrt.NewRNG(seed, 0x5EA), tier: tier, nextVal: 1000}
+	g := &genCtx{r: simrt.NewRNG(seed, 0x5EA), tier: tier, nextVal: 1000, nilP: 0.05}
 	sc := &SeqScenario{Prop: prop, Family: "map", Mode: "model", SchedSeed: simrt.Mix64(seed ^ 0x5CED)}
 	sc.Epoch = time.Date(2020, 1, 1, 0, 0, 0, 0, time.UTC).UnixNano()
 	kind := kinds[g.r.Intn(len(kinds))]
